@@ -18,13 +18,13 @@ def run(ctx):
     for cfg, k in (("MemDB_gen_cursor.cfg", 3), ("MemDB_gen_scan.cfg" if q else "MemDB_gen_scan_thorough.cfg", 4 if q else 5)):
         edges = ctx.gen("MemDB", cfg, "EDGE", timeout=1500)
         if len(edges) < 1000:
-            raise ctx_noverdict("too few edges generated from %s: %d" % (cfg, len(edges)))
+            ctx.fail("too few edges generated from %s: %d" % (cfg, len(edges)))
         out = ctx.driver(b, ["memdb-edges", str(k)], input_obj=edges)
         summ = [o for o in out if o.get("summary")][0]
         total_edges += summ["edges"]
         distinct += summ["distinct"]
         if summ["edges"] != len(edges):
-            raise ctx_noverdict("driver replayed %d of %d edges" % (summ["edges"], len(edges)))
+            ctx.fail("driver replayed %d of %d edges" % (summ["edges"], len(edges)))
         ctx.sample({"edge": edges[len(edges) // 2]})
         for o in out:
             if o.get("mismatch"):
@@ -59,8 +59,3 @@ def _last_reset(events, i):
     while i > 0 and events[i].get("op") != "reset":
         i -= 1
     return i
-
-
-def ctx_noverdict(msg):
-    from vlib.core import NoVerdict
-    return NoVerdict(msg)
